@@ -1,0 +1,42 @@
+// Copyright 2024 Jigsaw Operations LLC
+//
+// Licensed under the Apache License, Version 2.0 (the "License");
+// you may not use this file except in compliance with the License.
+// You may obtain a copy of the License at
+//
+//     https://www.apache.org/licenses/LICENSE-2.0
+//
+// Unless required by applicable law or agreed to in writing, software
+// distributed under the License is distributed on an "AS IS" BASIS,
+// WITHOUT WARRANTIES OR CONDITIONS OF ANY KIND, either express or implied.
+// See the License for the specific language governing permissions and
+// limitations under the License.
+
+//go:build verif
+
+package service
+
+// Exports for the verification harness (/verif/harness); compiled only with -tags verif.
+
+// VerifCipherEntry is one element of a CipherList in its current order.
+type VerifCipherEntry struct {
+	ID           string
+	LastClientIP string // "" for the zero netip.Addr
+}
+
+// VerifCipherListOrder returns the IDs and last client IPs of cl in list order.
+func VerifCipherListOrder(cl CipherList) []VerifCipherEntry {
+	c := cl.(*cipherList)
+	c.mu.RLock()
+	defer c.mu.RUnlock()
+	var out []VerifCipherEntry
+	for e := c.list.Front(); e != nil; e = e.Next() {
+		ce := e.Value.(*CipherEntry)
+		ip := ""
+		if ce.lastClientIP.IsValid() {
+			ip = ce.lastClientIP.String()
+		}
+		out = append(out, VerifCipherEntry{ID: ce.ID, LastClientIP: ip})
+	}
+	return out
+}
